@@ -2,9 +2,7 @@ package c26_ring
 
 import (
 	"fmt"
-	"os"
 	"runtime"
-	"runtime/debug"
 	"sync"
 	"testing"
 
@@ -14,12 +12,6 @@ import (
 )
 
 const prop = "C26"
-
-func TestMain(m *testing.M) {
-	// The enumeration allocates one tiny buffer per sequence; collect rarely.
-	debug.SetGCPercent(1600)
-	os.Exit(m.Run())
-}
 
 const ntRule = "non-trivial: at some point of the sequence the queued data wraps around the end of storage (oldest byte's index + bytes queued > capacity)"
 
